@@ -11,7 +11,7 @@ from hv.common import Trace, exec_hy, rng_for
 ID = "C02"
 LEVEL = "exploration"
 RULE = ("(and ...)/(or ...) programs: arity 0-4 enumerated exhaustively over operand shape "
-        "{var, effectful (L k v), statement-producing (do (setv t v) (L k t)), nested and/or} x "
+        "{var, effectful (L k v), statement-producing (do (setv t v) (L k t)), valueless statement (do (L k v) (setv s 1)), nested and/or} x "
         "truthiness x operator; arity 5-8 sampled; six usage contexts (incl. assignment to a variable that a later operand reads). Non-trivial = arity >= 2 "
         "with a statement-producing operand that is not first; distinct by program text.")
 FLOOR = {"quick": 500, "thorough": 500}
@@ -29,7 +29,7 @@ MANIFEST = {
     "technique": "runtime monitoring: trace logger on every operand + identity of returned object vs closed-form oracle, exhaustive small arities",
 }
 
-SHAPES = ["var", "eff", "stmt", "nest"]
+SHAPES = ["var", "eff", "stmt", "nest", "nstmt"]
 CONTEXTS = ["used", "discarded", "iftest", "callarg", "infn", "alias"]
 FALSY = ["[]", "0", '""', "None", "False"]
 
@@ -76,6 +76,8 @@ def render(node):
         return f"(L {node['i']} v{node['i']})"
     if k == "stmt":
         return f"(do (setv t{node['i']} v{node['i']}) (L {node['i']} t{node['i']}))"
+    if k == "nstmt":          # a pure statement: effects but no value (evaluates to None)
+        return f"(do (L {node['i']} v{node['i']}) (setv s{node['i']} 1))"
     return "(" + " ".join([node["op"]] + [render(c) for c in node["ops"]]) + ")"
 
 
@@ -159,6 +161,9 @@ def ref(node, values, trace):
     if k in ("eff", "stmt"):
         trace.append(node["i"])
         return values[node["i"]]
+    if k == "nstmt":
+        trace.append(node["i"])
+        return None
     res = True if node["op"] == "and" else None
     for c in node["ops"]:
         res = ref(c, values, trace)
@@ -181,7 +186,7 @@ def run_case(case):
     classes = [case["cls"], "ctx:" + ctx, "op:" + node["op"]]
     lv = list(leaves(node))
     nontrivial = (len(node["ops"]) >= 2 and
-                  any(l["k"] == "stmt" for c in node["ops"][1:] for l in leaves(c)))
+                  any(l["k"] in ("stmt", "nstmt") for c in node["ops"][1:] for l in leaves(c)))
     res = {"ok": True, "nontrivial": nontrivial, "classes": classes, "events": len(tr.events)}
     if exc is not None:
         res.update(ok=False, why=f"{phase} raised {type(exc).__name__}: {exc}")
